@@ -27,6 +27,14 @@ FULL_STACK = ["PUSH1 0x1 ADD SWAP1 POP", "PUSH1 0x1 SUB SWAP1 POP", "DUP1 DUP3 A
 PRUNING = ["SSTORE POP", "MSTORE POP", "MSTORE8 POP", "SWAP2 POP SWAP1 SSTORE", "SWAP2 POP SWAP1 MSTORE", "SWAP1 POP POP", "POP SWAP1 POP",
            "SWAP1 POP SWAP1 POP", "DUP2 SSTORE POP", "SWAP1 SSTORE POP POP", "PUSH1 0x1 PUSH1 0x1 PUSH1 0x1", "PUSH1 0x7 DUP1 DUP1 ADD ADD",
            "SLOAD POP", "DUP1 MLOAD POP POP"]
+# every kind of dependence (load->store, store->load, store->store; memory and storage) in a block with two instructions of slack, so that
+# the position ranges of the ordering constraints are not empty
+ORDER = ["PUSH1 0x3 POP PUSH1 0x0 MLOAD PUSH1 0x1 PUSH1 0x0 MSTORE", "PUSH1 0x3 POP DUP1 SLOAD SWAP2 SWAP1 SSTORE", "PUSH1 0x3 POP DUP1 MLOAD SWAP2 SWAP1 MSTORE",
+         "PUSH1 0x3 POP PUSH1 0x1 PUSH1 0x0 MSTORE PUSH1 0x0 MLOAD", "PUSH1 0x3 POP DUP2 DUP2 SSTORE SLOAD", "PUSH1 0x3 POP DUP1 DUP3 SSTORE SSTORE",
+         "PUSH1 0x3 POP DUP1 DUP3 MSTORE MSTORE", "PUSH1 0x3 POP DUP1 MLOAD DUP2 MSTORE8", "DUP1 MLOAD SWAP2 SWAP1 MSTORE", "DUP1 SLOAD SWAP2 SWAP1 SSTORE"]
+# a value without operands that is needed at two depths: recomputing it late is cheaper than keeping a copy, so the optimum needs the
+# instruction at a late position (tight upper position bounds remove it)
+LATE = ["CALLVALUE DUP1 ISZERO SWAP1", "ADDRESS DUP1 NOT SWAP1", "CALLER DUP1 DUP3 ADD SWAP1", "CALLVALUE DUP1 DUP3 SSTORE", "CODESIZE DUP1 DUP1 MLOAD SWAP1"]
 STRUCTURAL = [[], ["-empty"], ["-pop-uninterpreted"], ["-empty", "-pop-uninterpreted"], ["-push-basic", "-term-encoding", "int"],
               ["-empty", "-term-encoding", "int"], ["-memory-encoding", "l_vars"], ["-empty", "-term-encoding", "stack_vars"]]
 
@@ -43,7 +51,7 @@ def small_blocks(rng, n):
             "PUSH1 0x1 DUP2 SSTORE PUSH1 0x2 DUP2 SSTORE", "DUP1 DUP1 MUL", "POP POP", "PUSH1 0x0 DUP2 MSTORE DUP1 MLOAD",
             # dependent stores whose second operands are on top of the initial stack (a store at position 0 must not overtake the first one)
             "SWAP2 SWAP1 SWAP3 SWAP1 SSTORE SSTORE", "SWAP2 SWAP1 SWAP3 SWAP1 MSTORE MSTORE", "SWAP2 SWAP1 SWAP3 SWAP1 MSTORE8 MSTORE"]
-    out += FULL_STACK + PRUNING
+    out += FULL_STACK + PRUNING + ORDER + LATE
     return out
 
 
